@@ -498,7 +498,7 @@ PROPS = {
         required_theorems=["Rodbus.C02.session_calls_justified", "Rodbus.C02.framing_error_ends_session", "Rodbus.C02.calls_justified", "Rodbus.C02.write_once", "Rodbus.C02.write_once_broadcast",
                            "Rodbus.C02.reads_ascending_prefix", "Rodbus.C02.invalid_no_effect", "Rodbus.C02.reads_no_state_change_lookup",
                            "Rodbus.C01W.write_failure_calls_justified", "Rodbus.C01W.write_failure_prefix"],
-        suites=[dict(gen="srv_wfail", n=(300, 30000)), dict(gen="srv_tcp", n=(2500, 150000)), dict(gen="srv_rtu", n=(1500, 100000)), dict(gen="srv_auth", n=(1500, 100000))],
+        suites=[dict(gen="srv_wfail", n=(300, 30000)), dict(gen="srv_edge", n=(1, 1), exhaustive="k = 1..11 pipelined requests + a long write whose first delivery ends at offset 259/260/261 of the receive buffer, a ChangeDecoding command cancelling the pending read, then the rest; handler mutex held by an application thread while a unicast / broadcast write arrives"), dict(gen="srv_tcp", n=(2500, 150000)), dict(gen="srv_rtu", n=(1500, 100000)), dict(gen="srv_auth", n=(1500, 100000))],
         level_text="Proof: calls_justified (every handler call of handle_frame is justified by a valid, in-limit, permitted request addressed to that "
                    "unit or broadcast, and is either exactly the decoded write or a read inside the requested range), write_once / "
                    "write_once_broadcast (exactly one write call per target with exactly count items (start+i, v_i)), reads_ascending_prefix, "
@@ -535,7 +535,7 @@ PROPS = {
         required_theorems=["Rodbus.C17.silent_unless_addressed", "Rodbus.C17.broadcast_write", "Rodbus.C17.broadcast_read_ignored",
                            "Rodbus.C17.broadcast_never_answered", "Rodbus.C17.unit0_ordinary_on_tcp",
                            "Rodbus.C17.silent_unless_addressed_or_denied", "Rodbus.C17.denied_answered_even_if_unconfigured"],
-        suites=[dict(gen="srv_rtu", n=(3000, 200000)), dict(gen="srv_tcp", n=(800, 50000)), dict(gen="srv_auth", n=(600, 50000)), dict(gen="pty_srv", n=(120, 1500), jobs=16)],
+        suites=[dict(gen="srv_edge", n=(1, 1), exhaustive="every kind of broadcast / unicast write while an application thread holds the handler mutex of one unit"), dict(gen="srv_rtu", n=(3000, 200000)), dict(gen="srv_tcp", n=(800, 50000)), dict(gen="srv_auth", n=(600, 50000)), dict(gen="pty_srv", n=(120, 1500), jobs=16)],
         level_text="Proof: silent_unless_addressed (for EVERY pdu - valid, failing in the handler or malformed - a frame for an unconfigured, "
                    "non-broadcast address yields no reply and no call), broadcast_write (RTU destination 0, valid write => exactly one write call per "
                    "configured unit in ascending order, results ignored, no reply), broadcast_never_answered (not even exceptions, also when "
